@@ -125,7 +125,7 @@ example : (∫ x, x * Gamma.pdf RF (5 / 2) 3 x = 5 / 6) ∧ (∫ x, (x - 5 / 6) 
 theorem chiSquared_pdf_ae_eq (F : Fns ℝ) (hG : LnGammaOK F) (k : ℕ) (hk : 0 < k) :
     gammaPDFReal ((k : ℝ) / 2) (1 / 2) =ᵐ[volume] fun x => ChiSquared.pdf F k x := by
   filter_upwards [ae_ne 0] with x hx
-  exact (chiSquared_pdf_eq_gammaPDFReal F hG k hk x hx).symm
+  exact (chiSquared_pdf_eq_gammaPDFReal_partial F hG k hk x hx).symm
 
 /-- **ChiSquared(k)**, `k ≥ 1`: total mass one, first moment `mean() = k`, second central moment `var() = 2k`. -/
 theorem chiSquared_moments (F : Fns ℝ) (hG : LnGammaOK F) (k : ℕ) (hv : ChiSquared.valid k = true) :
@@ -154,7 +154,7 @@ example : (∫ x, x * ChiSquared.pdf RF 3 x = 3) ∧ (∫ x, (x - 3) ^ 2 * ChiSq
 theorem beta_pdf_ae_eq (F : Fns ℝ) (hG : LnGammaOK F) (a b : ℝ) (ha : 0 < a) (hb : 0 < b) :
     betaPDFReal a b =ᵐ[volume] fun x => Beta.pdf F a b x := by
   filter_upwards [ae_ne 0, ae_ne 1] with x h0 h1
-  exact (beta_pdf_eq_betaPDFReal F hG a b x ha hb h0 h1).symm
+  exact (beta_pdf_eq_betaPDFReal_partial F hG a b x ha hb h0 h1).symm
 
 /-- **Beta(α, β)**, `α, β > 0`: total mass one, first moment `mean() = α/(α+β)`, second central moment
 `var() = αβ / ((α+β)² (α+β+1))`. -/
